@@ -15,8 +15,11 @@ import (
 )
 
 type C12Scenario struct {
-	Files []*gen.JFile `json:"files"`
-	Procs []C07Proc    `json:"procs"` // passes: api (judged), ident/full/bs (predecessor noise)
+	// CwdIgnore: the working directory of every process (never the analysed directory itself) holds
+	// a .gitignore whose anchored patterns name the top-level package directories
+	CwdIgnore bool         `json:"cwd_ignore,omitempty"`
+	Files     []*gen.JFile `json:"files"`
+	Procs     []C07Proc    `json:"procs"` // passes: api (judged), ident/full/bs (predecessor noise)
 	// CliHistory: the CLI route in ONE working directory whose coca_reporter/ persists: for each
 	// step a sub-project (file subset) is analysed (`coca analysis -p`) and scanned (`coca api -p -f`),
 	// every command in its own process; reports left by earlier steps must not leak into later ones
@@ -84,6 +87,7 @@ func (C12) Generate(t *tape.Tape, tier string) interface{} {
 		}
 		sc.CliTmpOtherFS = t.Bool(1, 3)
 	}
+	sc.CwdIgnore = t.Bool(1, 3)
 	return sc
 }
 
@@ -107,6 +111,10 @@ func (C12) Run(ctx *sim.RunCtx, data json.RawMessage) (*sim.Outcome, error) {
 		return nil, sim.Harness("scenario: %v", err)
 	}
 	out := &sim.Outcome{Faults: map[string]int{}, Probes: map[string]int{}}
+	if sc.CwdIgnore {
+		os.WriteFile(filepath.Join(ctx.Dir, ".gitignore"), []byte(cwdIgnoreText), 0644)
+		out.Faults["working-directory-holds-gitignore"]++
+	}
 	out.ContentHash = hashJSON(sc)
 	c7 := &C07Scenario{}
 	for _, f := range sc.Files {
@@ -204,7 +212,7 @@ func (C12) Run(ctx *sim.RunCtx, data json.RawMessage) (*sim.Outcome, error) {
 				paths = []string{}
 			}
 			if op.Noise > 0 && (op.Pass == "api" || op.Pass == "bs") {
-				r.addNoise(dir, len(files))
+				r.addNoise(dir, len(files), op.Noise)
 			}
 			switch op.Pass {
 			case "api":
@@ -317,6 +325,9 @@ func (C12) Run(ctx *sim.RunCtx, data json.RawMessage) (*sim.Outcome, error) {
 	if len(sc.CliHistory) > 0 {
 		cwd := filepath.Join(ctx.Dir, "cli")
 		os.MkdirAll(cwd, 0755)
+		if sc.CwdIgnore {
+			os.WriteFile(filepath.Join(cwd, ".gitignore"), []byte(cwdIgnoreText), 0644)
+		}
 		for k, sub := range sc.CliHistory {
 			src := fmt.Sprintf("src%d", k)
 			edit := k < len(sc.CliEdit) && sc.CliEdit[k] && k > 0
